@@ -192,6 +192,7 @@ func c19counter(env sched.Env) *sched.Report {
 					cs := ctrCase{capn, np}
 					sig, detail, st := ctrRun(cs, false)
 					rep.Execs++
+					sched.Progress(nil)
 					rep.Transitions++
 					if sig != "" {
 						full := fmt.Sprintf("%s / capacity=%s", sig, capClass(capn))
@@ -219,6 +220,7 @@ func c19counter(env sched.Env) *sched.Report {
 	// the capacity is a uint8: every capacity at the type's boundaries with more distinct keys than it holds
 	for _, capn := range []uint8{1, 2, 127, 128, 254, 255} {
 		rep.Execs++
+		sched.Progress(nil)
 		c := NewCounter(capn, nil)
 		bad := ""
 		for i := 0; i < int(capn)+60 && bad == ""; i++ {
@@ -411,6 +413,7 @@ func c19insert(env sched.Env) *sched.Report {
 		rec = func(seq []uint8) {
 			if len(seq) > 0 {
 				rep.Execs++
+				sched.Progress(nil)
 				s := newSortedHotKeys(capn)
 				for i, h := range seq {
 					s.Insert(HotKey{Name: fmt.Sprintf("k%d", i), Counter: &logrithmCounter{val: h}})
